@@ -143,4 +143,144 @@ theorem polyCoef_one (ip : Vec K → Vec K → K) (sqrt : K → K) (c07 : K) (co
   simp only [mzb, Nat.add_zero, Nat.le_refl, Nat.zero_le, and_self, if_true, g2]
 
 end one
+
+/-! ### the Gram matrix for every `L` -/
+section gram
+variable {K : Type} [Field K] [DecidableEq K] [LT K] [DecidableLT K]
+
+theorem gram_inner1 (g : Nat → K) (i m : Nat) (M : FArr2 K) (a b : Nat) :
+    ((List.range m).foldl (fun (M : FArr2 K) j => setF2 M i j (g j)) M).get a b
+      = if a = i ∧ b < m then g b else M.get a b := by
+  induction m with
+  | zero => simp
+  | succ k ih =>
+    rw [List.range_succ, List.foldl_append]
+    simp only [List.foldl_cons, List.foldl_nil, setF2_get, ih]
+    by_cases h1 : a = i <;> by_cases h2 : b = k <;> by_cases h3 : b < k <;> simp [h1, h2, h3] <;> omega
+
+theorem gram_phase1 (ip : Vec K → Vec K → K) (R : FArr (Vec K)) (m : Nat) (M : FArr2 K) (a b : Nat) :
+    ((List.range m).foldl (fun (M : FArr2 K) i =>
+        (List.range (i + 1)).foldl (fun (M : FArr2 K) j => setF2 M i j (ip (R.get i) (R.get j))) M) M).get a b
+      = if a < m ∧ b ≤ a then ip (R.get a) (R.get b) else M.get a b := by
+  induction m with
+  | zero => simp
+  | succ k ih =>
+    rw [List.range_succ, List.foldl_append]
+    simp only [List.foldl_cons, List.foldl_nil]
+    rw [gram_inner1 (fun j => ip (R.get k) (R.get j)), ih]
+    by_cases h1 : a = k
+    · subst h1
+      by_cases h2 : b ≤ a
+      · rw [if_pos ⟨rfl, by omega⟩, if_pos ⟨by omega, h2⟩]
+      · rw [if_neg (by omega), if_neg (by omega), if_neg (by omega)]
+    · rw [if_neg (by omega)]
+      by_cases h2 : a < k ∧ b ≤ a
+      · rw [if_pos h2, if_pos ⟨by omega, h2.2⟩]
+      · rw [if_neg h2, if_neg (by omega)]
+
+theorem gram_inner2 (i : Nat) (l : List Nat) (hl : ∀ j ∈ l, i < j) (M : FArr2 K) (a b : Nat) :
+    (l.foldl (fun (M : FArr2 K) j => setF2 (setF2 M j i (M.get j i)) i j (M.get j i)) M).get a b
+      = if a = i ∧ b ∈ l then M.get b i else M.get a b := by
+  induction l generalizing M with
+  | nil => simp
+  | cons x t ih =>
+    have hx : i < x := hl x List.mem_cons_self
+    rw [List.foldl_cons, ih (fun j hj => hl j (List.mem_cons_of_mem _ hj))]
+    have F1 : ∀ c, i < c → (setF2 (setF2 M x i (M.get x i)) i x (M.get x i)).get c i = M.get c i := by
+      intro c hc
+      rw [setF2_get, if_neg (by omega), setF2_get]
+      by_cases e : c = x
+      · subst e; rw [if_pos ⟨rfl, rfl⟩]
+      · rw [if_neg (by omega)]
+    have F2 : (setF2 (setF2 M x i (M.get x i)) i x (M.get x i)).get a b
+        = if a = i ∧ b = x then M.get x i else M.get a b := by
+      rw [setF2_get, setF2_get]
+      by_cases e : a = i ∧ b = x
+      · rw [if_pos e, if_pos e]
+      · rw [if_neg e, if_neg e]
+        by_cases e2 : a = x ∧ b = i
+        · obtain ⟨rfl, rfl⟩ := e2; rw [if_pos ⟨rfl, rfl⟩]
+        · rw [if_neg e2]
+    by_cases h1 : a = i
+    · by_cases h2 : b ∈ t
+      · rw [if_pos ⟨h1, h2⟩, if_pos ⟨h1, List.mem_cons_of_mem _ h2⟩]
+        exact F1 b (hl b (List.mem_cons_of_mem _ h2))
+      · rw [if_neg (fun c => h2 c.2), F2]
+        by_cases h3 : b = x
+        · rw [if_pos ⟨h1, h3⟩, if_pos ⟨h1, by rw [h3]; exact List.mem_cons_self⟩, h3]
+        · rw [if_neg (fun c => h3 c.2), if_neg (fun c => by
+            rcases List.mem_cons.mp c.2 with e | e
+            · exact h3 e
+            · exact h2 e)]
+    · rw [if_neg (fun c => h1 c.1), if_neg (fun c => h1 c.1), F2, if_neg (fun c => h1 c.1)]
+
+theorem gram_phase2 (L : Nat) (m : Nat) (M : FArr2 K) (a b : Nat) :
+    ((List.range m).foldl (fun (M : FArr2 K) i => ((List.range (L + 1)).drop (i + 1)).foldl
+        (fun (M : FArr2 K) j => setF2 (setF2 M j i (M.get j i)) i j (M.get j i)) M) M).get a b
+      = if a < m ∧ a < b ∧ b ≤ L then M.get b a else M.get a b := by
+  induction m generalizing a b with
+  | zero => simp
+  | succ k ih =>
+    rw [show List.range (k + 1) = List.range k ++ [k] from List.range_succ, List.foldl_append]
+    simp only [List.foldl_cons, List.foldl_nil]
+    rw [gram_inner2 k _ (fun j hj => by have := (mem_range_drop_iff _ _ _).mp hj; omega)]
+    simp only [mem_range_drop_iff]
+    by_cases h1 : a = k ∧ (k + 1 ≤ b ∧ b < L + 1)
+    · obtain ⟨rfl, h2, h3⟩ := h1
+      rw [if_pos ⟨rfl, h2, h3⟩, ih, if_neg (by omega), if_pos ⟨by omega, by omega, by omega⟩]
+    · rw [if_neg h1, ih]
+      by_cases h2 : a < k ∧ a < b ∧ b ≤ L
+      · rw [if_pos h2, if_pos ⟨by omega, h2.2.1, h2.2.2⟩]
+      · rw [if_neg h2, if_neg (by omega)]
+
+/-- **the Gram matrix as the code fills it**: `MZa(a,b) = ⟨R[max a b], R[min a b]⟩` on `(L+1)×(L+1)` -/
+theorem gram_get (ip : Vec K → Vec K → K) (L : Nat) (R : FArr (Vec K)) (M : FArr2 K) (a b : Nat) (ha : a ≤ L)
+    (hb : b ≤ L) :
+    (gram ip L R M).get a b = if a < b then ip (R.get b) (R.get a) else ip (R.get a) (R.get b) := by
+  unfold gram
+  simp only []
+  rw [gram_phase2]
+  by_cases h : a < b
+  · rw [if_pos ⟨by omega, h, hb⟩, if_pos h, gram_phase1, if_pos ⟨by omega, by omega⟩]
+  · rw [if_neg (by omega), if_neg h, gram_phase1, if_pos ⟨by omega, by omega⟩]
+
+end gram
+
+/-! ### what the polynomial part of the model stores -/
+section part
+variable {K : Type} [Field K] [DecidableEq K] [LT K] [DecidableLT K]
+
+/-- the coefficients the polynomial part of a pass started in state `st` computes -/
+def passY0 (prm : Params K) (ip : Vec K → Vec K → K) (sqrt : K → K) (c07 : K) (st : St K) : FArr K :=
+  (polyCoef sqrt c07 prm.L prm.convex { st.w with MZa := gram ip prm.L st.w.R st.w.MZa }).Y0
+
+/-- the polynomial part (every branch of the accurate update): `zeta` is the norm of `R[0] − Σ Y0[1+k] R[1+k]`; without
+the accurate update (`delta ≤ 0`) that vector is stored in `R[0]` and `X += Σ Y0[1+k] R[k]` -/
+theorem polyPart_zeta (prm : Params K) (ip : Vec K → Vec K → K) (sqrt : K → K) (c07 : K) (A : CRS K)
+    (P : Vec K → Vec K) (zeta0 : K) (st st' : St K) (h : polyPart prm ip sqrt c07 A P zeta0 st = .ok st') :
+    st'.zeta = nrm ip sqrt (polyV0 prm.L (passY0 prm ip sqrt c07 st) st.w.R) ∧
+    (¬ 0 < prm.delta → st'.w.R.get 0 = polyV0 prm.L (passY0 prm ip sqrt c07 st) st.w.R ∧
+      st'.w.X = polyX prm.L (passY0 prm ip sqrt c07 st) st.w.R st.w.X ∧
+      st'.w.U.get 0 = polyV0 prm.L (passY0 prm ip sqrt c07 st) st.w.U ∧ st'.x = st.x) := by
+  obtain ⟨f1, f2, f3, f4, f5, f6⟩ :=
+    polyCoef_frame sqrt c07 prm.L prm.convex { st.w with MZa := gram ip prm.L st.w.R st.w.MZa }
+  unfold passY0
+  unfold polyPart at h
+  simp only [] at h
+  generalize polyCoef sqrt c07 prm.L prm.convex { st.w with MZa := gram ip prm.L st.w.R st.w.MZa } = w1
+    at h f1 f2 f3 f4 f5 f6 ⊢
+  simp only at f1 f2 f3 f4 f5 f6
+  simp only [f2, f3, f5, f6, polyX_def, polyV0_def] at h
+  split at h
+  · cases h
+  · split at h
+    · rename_i hd
+      split at h
+      · split at h <;> cases h <;> exact ⟨rfl, fun c => absurd hd c⟩
+      · cases h; exact ⟨rfl, fun c => absurd hd c⟩
+    · cases h
+      exact ⟨rfl, fun _ => ⟨by show (setF _ 0 _).get 0 = _; rw [setF_same], rfl,
+        by show (setF _ 0 _).get 0 = _; rw [setF_same], rfl⟩⟩
+
+end part
 end Amgcl.Solver.BiCGStabL
